@@ -4,7 +4,7 @@ Reference side is executed (macro values from a compiled C program, exports from
 the binding interfaces are lexed (lib/bindlex.py), never compiled: no Fortran/Pascal/Cython/SWIG/IDL tool chain exists here.
 Violation keys: '<file>|<kind>|<NAME>'.
 """
-import ctypes, json, os, re, struct, subprocess, sys
+import ctypes, glob, json, os, re, struct, subprocess, sys
 import common, build, protos
 import bindlex as L
 
@@ -676,6 +676,44 @@ def run(ctx, B, collect=False):
                 R.cmp(sw, "typemap-missing", "%s(%s %s)" % (p["name"], t, n), (t, n) in tmset, "named typemaps: %s" % sorted(tmset),
                       "parameter '%s %s' of %s" % (t, n, p["name"]), sw, "swig directives")
     notes["functions_compared"]["swig (by %include; pointer parameters vs named typemaps)"] = nsw
+    # result objects are assembled by hand in the out-typemaps of every target language: each struct member must be converted with a constructor of ITS C type
+    # (a double member pushed with an integer constructor truncates silently; formulas with integer subscripts never show it)
+    hdr_text = "".join(open(h, errors="replace").read() for h in sorted(glob.glob(P("include/*.h"))))
+    hdr_text = re.sub(r"/\*.*?\*/", " ", hdr_text, flags=re.S)
+    member_type = {}
+    for body in re.findall(r"struct\s*\w*\s*\{([^{}]*)\}", hdr_text):
+        for decl in body.split(";"):
+            md = re.match(r"\s*(?:const\s+)?(?:struct\s+)?(\w+)\s*(\**)\s*(\w+)\s*$", decl.strip())
+            if not md:
+                continue
+            base = {"int": "int", "double": "double", "char": "str", "float": "double", "long": "int"}.get(md.group(1))
+            if base is None:
+                continue
+            member_type.setdefault(md.group(3), set()).add(base)
+    member_type = {k: next(iter(v)) for k, v in member_type.items() if len(v) == 1}
+    CTOR = {"double": ["lua_pushnumber", "PyFloat_FromDouble", "newSVnv", "rb_float_new", "DBL2NUM", "add_index_double", "add_assoc_double", "add_next_index_double", "ZVAL_DOUBLE"],
+            "int": ["lua_pushinteger", "PyInt_FromLong", "PyLong_FromLong", "newSViv", "newSVuv", "INT2FIX", "INT2NUM", "LONG2NUM", "add_index_long", "add_assoc_long", "add_next_index_long", "ZVAL_LONG"],
+            "str": ["lua_pushstring", "PyString_FromString", "PyUnicode_FromString", "newSVpv", "newSVpvn", "rb_str_new2", "rb_str_new_cstr", "add_assoc_string", "add_index_string", "add_next_index_string", "ZVAL_STRING"]}
+    ctor_class = {c: k for k, v in CTOR.items() for c in v}
+    swtext = open(P(sw), errors="replace").read()
+    nconv = 0
+    for mm in re.finditer(r"\b(%s)\s*\(" % "|".join(sorted(ctor_class, key=len, reverse=True)), swtext):
+        depth, j = 0, mm.end() - 1
+        for j in range(mm.end() - 1, min(len(swtext), mm.end() + 400)):
+            depth += (swtext[j] == "(") - (swtext[j] == ")")
+            if depth == 0:
+                break
+        arg = swtext[mm.end():j]
+        if any(re.search(r"\b%s\s*\(" % c, arg) for c in ctor_class):      # an outer call that merely contains the conversion: the inner one is judged
+            continue
+        mem = re.findall(r"(?:->|\.)\s*(\w+)", arg)
+        if not mem or mem[-1] not in member_type:
+            continue
+        nconv += 1
+        ln = swtext.count("\n", 0, mm.start()) + 1
+        R.cmp(sw, "swig-member-conversion", "%s@%d" % (mem[-1], ln), ctor_class[mm.group(1)] == member_type[mem[-1]], "%s(%s): a %s constructor" % (mm.group(1), " ".join(arg.split()), ctor_class[mm.group(1)]),
+              "member %s is %s in the C headers" % (mem[-1], member_type[mem[-1]]), "%s:%d" % (sw, ln), "swig member conversions")
+    notes["functions_compared"]["swig member conversions in out-typemaps"] = nconv
 
     # ================================================================= declared => exported
     so = B.shared("A")
